@@ -248,6 +248,31 @@ func check(c Case) error {
 			return vk.Errf("Tm of %q does not increase with %s: (oligo %g, Na %g, Mg %g) -> %v, (oligo %g, Na %g, Mg %g) -> %v", in, st.name, c.Oligo, c.Na, c.Mg, tm, st.oligo, st.na, st.mg, t2)
 		}
 	}
+	// the same along each axis for steps far below 1 % (relative 1e-8, 1e-7, 1e-6 - one of them per case): a result
+	// computed from the concentrations passed in moves with them. Judged where the formula itself moves Tm by more
+	// than 1e-10 K, thousands of times the spacing of float64 values at these temperatures.
+	tiny := 1 + []float64{1e-8, 1e-7, 1e-6}[c.CaseMask%3]
+	both := terminalRule() == 1
+	for _, st := range steps[:3] {
+		o, na, mg := c.Oligo, c.Na, c.Mg
+		switch st.name {
+		case "oligo":
+			o *= tiny
+		case "sodium":
+			na *= tiny
+		default:
+			mg *= tiny
+		}
+		w1, _, ws1 := reference(upper, c.Oligo, c.Na, c.Mg, both)
+		w2, _, ws2 := reference(upper, o, na, mg, both)
+		if !(dH < 0 && denominator(ws1, c.Oligo) < 0 && denominator(ws2, o) < 0 && w2-w1 > 1e-10 && math.Abs(w1) < 1000) {
+			continue
+		}
+		t2, _, _ := primers.SantaLucia(in, o, na, mg)
+		if !(t2 > tm) {
+			return vk.Errf("Tm of %q does not increase with %s under a step of %g relative: (oligo %.17g, Na %.17g, Mg %.17g) -> %.17g, (oligo %.17g, Na %.17g, Mg %.17g) -> %.17g; the formula moves it by %.3g K", in, st.name, tiny-1, c.Oligo, c.Na, c.Mg, tm, o, na, mg, t2, w2-w1)
+		}
+	}
 	// nearest-neighbour additivity through a C/G junction letter (needs no parameter table):
 	// dH(l+j+r) = dH(l+j) + dH(j+r) - initiation, for non-self-complementary strings
 	if c.Junction != "" {
